@@ -609,11 +609,8 @@ class Inliner:
                         src = rv.get("ref") or rv.get("rawptr")
                         if not any(e == "*" for e in src["p"]):
                             tainted.add(src["l"])
-            t = blk["term"]
-            if t["k"] == "call" and not t["dest"]["p"]:
-                tainted.add(t["dest"]["l"])
-            if t["k"] == "yield" and not t["resume_arg"]["p"]:
-                tainted.add(t["resume_arg"]["l"])
+        # (a definition by a call / resume on another path does not matter here: the chain from the construction site to
+        # the match contains no call and no other assignment to the value)
         # switch blocks: J -> (X, index of the `d = discriminant(X)` statement)
         joins = {}
         for j, blk in enumerate(blocks):
@@ -628,7 +625,17 @@ class Inliner:
                     x = st["rv"]["discr"]["l"]
                     if x not in tainted and all(not (s2["k"] == "assign" and not s2["place"]["p"] and s2["place"]["l"] in (x, dl["l"])) for s2 in blk["stmts"][i + 1:]):
                         joins[j] = x
-        if not joins:
+        # ... and switches directly on a local that holds a constant on some paths (`r = true` in one arm of an inlined
+        # `a || b`, `r = call()` in the other): J -> the local itself
+        cjoins = {}
+        for j, blk in enumerate(blocks):
+            t = blk["term"]
+            if t["k"] != "switch" or j in joins:
+                continue
+            dl = t["discr"].get("move") or t["discr"].get("copy")
+            if dl is not None and not dl["p"] and dl["l"] not in tainted:
+                cjoins[j] = dl["l"]
+        if not joins and not cjoins:
             return 0
 
         def single_succ(t):
@@ -664,6 +671,51 @@ class Inliner:
             blk = blocks[a]
             sites = [(i, st) for i, st in enumerate(blk["stmts"]) if st["k"] == "assign" and not st["place"]["p"] and st["place"]["l"] not in tainted
                      and st["rv"].get("agg") == "adt" and st["rv"].get("adt") in nvar and nvar[st["rv"]["adt"]] > 1 and "vidx" in st["rv"]]
+            csites = [(i, st) for i, st in enumerate(blk["stmts"]) if st["k"] == "assign" and not st["place"]["p"] and st["place"]["l"] not in tainted
+                      and "use" in st["rv"] and isinstance(st["rv"]["use"].get("const"), dict) and str(st["rv"]["use"]["const"].get("int", "")).lstrip("-").isdigit()]
+            if csites and not sites:
+                # constant site
+                i, st = csites[-1]
+                cval = int(st["rv"]["use"]["const"]["int"])
+                alias = {st["place"]["l"]}
+                wrapped.clear()
+                if not flow(blk["stmts"][i + 1:], alias):
+                    continue
+                chain, cur = [], single_succ(blk["term"])
+                ok = cur is not None
+                while ok and len(chain) <= max_chain:
+                    if cur in cjoins and cjoins[cur] in alias:
+                        break
+                    b2 = blocks[cur]
+                    nxt = single_succ(b2["term"])
+                    if nxt is None or cur in chain or not flow(b2["stmts"], alias):
+                        ok = False
+                        break
+                    chain.append(cur)
+                    cur = nxt
+                if not ok or len(chain) > max_chain or cur not in cjoins or cur == a or any(l in tainted for l in alias):
+                    continue
+                j = cur
+                if not flow(blocks[j]["stmts"], alias) or cjoins[j] not in alias:
+                    continue
+                jt = blocks[j]["term"]
+                tgt = jt["otherwise"]
+                for v, b2 in jt["arms"]:
+                    if int(v) == cval:
+                        tgt = b2
+                new_ids = {}
+                for c in chain + [j]:
+                    new_ids[c] = len(blocks)
+                    nb = copy.deepcopy(blocks[c])
+                    nb["threaded_from"] = c
+                    blocks.append(nb)
+                for c in chain:
+                    nb = blocks[new_ids[c]]
+                    nb["term"]["target"] = new_ids[single_succ(nb["term"])]
+                blocks[new_ids[j]]["term"] = {"k": "goto", "target": tgt, "span": jt["span"], "folded": True}
+                blk["term"]["target"] = new_ids[chain[0] if chain else j]
+                threaded += 1
+                continue
             if not sites:
                 continue
             i, st = sites[-1]
